@@ -174,27 +174,40 @@ func checkSoftGetSet(p *Prog, r *Report) {
 			r.decide(good, "C17.get-returns-stored", key, p.pos(ret.Pos()), why, "Get returns something other than the stored value, GetID() for \"id\", or nil")
 		}
 	})
-	// Set: what is stored
-	eachInstr(set, func(ins ssa.Instruction) {
+	// Set: what is stored (in Set itself or in the small helpers it hands key and value to)
+	isGiven := func(v ssa.Value, target *ssa.Parameter) bool {
+		if v == ssa.Value(target) {
+			return true
+		}
+		prm, ok := v.(*ssa.Parameter)
+		if !ok || prm.Parent() == set {
+			return false
+		}
+		return boundToInCalls(set, prm, target)
+	}
+	eachInstrOf(append([]*ssa.Function{set}, stringHelpers(set)...), func(ins ssa.Instruction) {
 		mu, ok := ins.(*ssa.MapUpdate)
 		if !ok {
 			return
 		}
+		if _, fl, ok := fieldLoad(mu.Map); !ok || fl != "data" {
+			return
+		}
 		key := "Set:" + p.describe(mu)
-		good := mu.Value == ssa.Value(set.Params[2]) && mu.Key == ssa.Value(set.Params[1])
+		good := isGiven(mu.Value, set.Params[2]) && isGiven(mu.Key, set.Params[1])
 		if !good {
 			if c, _ := callOf(mu.Value); c != nil && c.Common().StaticCallee() != nil && c.Common().StaticCallee().Name() == "GetZeroValue" {
 				// typed nil for an untyped nil on a nullable attribute
 				nilFact, nullableFact := false, false
 				for _, ef := range expandFacts(factsAt(mu.Block())) {
-					if bo, ok := ef.Cond.(*ssa.BinOp); ok && bo.Op == token.EQL && ef.Truth && bo.X == ssa.Value(set.Params[2]) && isNilConst(bo.Y) {
+					if bo, ok := ef.Cond.(*ssa.BinOp); ok && bo.Op == token.EQL && ef.Truth && isGiven(bo.X, set.Params[2]) && isNilConst(bo.Y) {
 						nilFact = true
 					}
 					if _, fl, ok := fieldLoad(ef.Cond); ok && fl == "Nullable" && ef.Truth {
 						nullableFact = true
 					}
 				}
-				good = nilFact && nullableFact && mu.Key == ssa.Value(set.Params[1])
+				good = nilFact && nullableFact && isGiven(mu.Key, set.Params[1])
 			}
 		}
 		r.decide(good, "C17.set-stores-given", key, p.pos(mu.Pos()), "stores the given value under the given key (or the typed nil for nil on a nullable attribute)",
@@ -939,4 +952,30 @@ func checkTypeNew(p *Prog, r *Report) {
 			"Type.New returns "+why+": a freshly created resource need not have the type's name and fields")
 	})
 	r.floor("returns of Type.New", nRet, 1)
+}
+
+// boundToInCalls: prm is a parameter of a small helper, and every call of that
+// helper in f passes target at prm's position.
+func boundToInCalls(f *ssa.Function, prm *ssa.Parameter, target ssa.Value) bool {
+	g := prm.Parent()
+	if g == nil || !smallHelper(g) {
+		return false
+	}
+	idx := -1
+	for i, q := range g.Params {
+		if q == prm {
+			idx = i
+		}
+	}
+	n := 0
+	all := true
+	eachInstr(f, func(ins ssa.Instruction) {
+		if c, ok := ins.(*ssa.Call); ok && c.Common().StaticCallee() == g && idx >= 0 && idx < len(c.Common().Args) {
+			n++
+			if c.Common().Args[idx] != target {
+				all = false
+			}
+		}
+	})
+	return n > 0 && all
 }
